@@ -482,4 +482,26 @@ theorem ackSeq_count (id : Nat) : ∀ (batches : List (List Nat)) (acks : List N
     have h1 := notifyAcks_conserve id b acks
     have h2 := ih (notifyAcks acks b).1
     omega
+theorem handleAck_conserve (id : Nat) (st : St) (b : Bytes) :
+    (handleAck st b).st.acks.count id + (handleAck st b).evs.count (Ev.ack id) = st.acks.count id := by
+  unfold handleAck
+  split
+  · simp
+  · split
+    · simp
+    · split
+      · simp
+      · exact notifyAcks_conserve id _ _
+
+theorem ackRun_count (id : Nat) : ∀ (bs : List Bytes) (st : St),
+    (ackRun st bs).count (Ev.ack id) ≤ st.acks.count id := by
+  intro bs
+  induction bs with
+  | nil => intro st; simp [ackRun]
+  | cons b bs ih =>
+    intro st
+    simp only [ackRun, List.count_append]
+    have h1 := handleAck_conserve id st b
+    have h2 := ih (handleAck st b).st
+    omega
 end TdModel.C23
